@@ -306,6 +306,8 @@ func (wk *worker) onePath(fn *ssa.Function, prefix []decision) {
 	i.ps = ps
 	i.depth = 0
 	i.replaced = nil
+	i.panicStack = nil
+	i.callStack = i.callStack[:0]
 	for k := range i.funcsHit {
 		delete(i.funcsHit, k)
 	}
@@ -316,6 +318,9 @@ func (wk *worker) onePath(fn *ssa.Function, prefix []decision) {
 				outcome = describePanic(r)
 				if _, isBug := r.(engineBug); !isBug && strings.HasPrefix(outcome, "enginebug") {
 					outcome += hostStack()
+				}
+				if strings.HasPrefix(outcome, "enginebug") || strings.HasPrefix(outcome, "inconclusive") {
+					outcome += " [in " + i.panicWhere() + "]"
 				}
 			}
 		}()
